@@ -1,5 +1,6 @@
 use crate::engine::{Ctx, Fail};
 
+pub mod c02;
 pub mod c03;
 pub mod c04;
 pub mod c06;
@@ -9,6 +10,7 @@ pub mod c14;
 
 pub fn run(ctx: &Ctx) -> bool {
     match ctx.id.as_str() {
+        "C02" => c02::run(ctx),
         "C03" => c03::run(ctx),
         "C04" => c04::run(ctx),
         "C06" => c06::run(ctx),
@@ -23,6 +25,7 @@ pub fn run(ctx: &Ctx) -> bool {
 fn replay_one(ctx: &Ctx, sub: &str, input: &serde_json::Value) -> Option<Result<(), Fail>> {
     let _ = sub;
     Some(match ctx.id.as_str() {
+        "C02" => c02::replay(ctx, sub, input),
         "C03" => c03::replay(ctx, input),
         "C04" => c04::replay(ctx, sub, input),
         "C06" => c06::replay(ctx, sub, input),
